@@ -193,6 +193,8 @@ pub fn policy_for_union() -> lightning_signer::policy::simple_validator::SimpleP
     // two ordinary on-chain approvals (150 sat of fees each) fit, the third is refused by the
     // fee velocity limit: a refusal late in check_onchain_tx
     p.fee_velocity_control = VelocityControlSpec { limit_msat: 400_000, interval_type: VelocityControlIntervalType::Daily };
+    // a small invoice table: "too many invoices" refusals are reachable (three of the four hashes)
+    p.max_invoices = 3;
     p
 }
 
@@ -207,6 +209,9 @@ impl Machine {
         cfg.policy = policy_for_union();
         let vf: Arc<dyn ValidatorFactory> = Arc::new(SimpleValidatorFactory::new_with_policy(cfg.policy.clone()));
         let mut w = if backup { World::new_backup(cfg, vf) } else if cloud { World::new_cloud(cfg, vf) } else { World::new_with_factory(cfg, vf) };
+        // the signer's clock is not on a whole second (keysend records carry sub-second timestamps)
+        let t0 = w.clock.now();
+        w.clock.set(Duration::new(t0.as_secs(), 900_000_000));
         let mut st = vec![];
         for i in 0..2u64 {
             let mut spec = ChanSpec::basic(i + 1);
@@ -520,7 +525,7 @@ impl Machine {
                     if ks {
                         node.add_keysend(payee, ph, a)
                     } else {
-                        node.add_invoice(crate::props::c06::make_invoice_pub(hh, a, now))
+                        node.add_invoice(crate::props::c06::make_invoice_pub(hh, a, Duration::from_secs(now.as_secs())))
                     }
                 });
                 if ok == Some(false) {
